@@ -158,7 +158,7 @@ class TypeMap:
 
 
 def type_names(t: Any) -> list[str]:
-    from mypy.types import AnyType, CallableType, Instance, LiteralType, NoneType, TupleType, TypedDictType, TypeType, UnionType, get_proper_type, TypeVarType
+    from mypy.types import AnyType, CallableType, Instance, LiteralType, NoneType, Overloaded, TupleType, TypedDictType, TypeType, UnionType, get_proper_type, TypeVarType
 
     if t is None:
         return []
@@ -186,6 +186,11 @@ def type_names(t: Any) -> list[str]:
         return ["type[" + ",".join(type_names(t.item)) + "]"]
     if isinstance(t, TypeVarType):
         return type_names(t.upper_bound)
+    if isinstance(t, Overloaded):
+        it = t.items[0]
+        if it.is_type_obj():
+            return ["type[" + it.type_object().fullname + "]"]
+        return ["callable"]
     if isinstance(t, CallableType):
         if t.is_type_obj():
             return ["type[" + t.type_object().fullname + "]"]
